@@ -13,13 +13,18 @@
    e.g. d = alru_cache(maxsize=2), and applies it to cfg.nf functions: every function has its own reference
    cache and its own maxsize budget), i = instance (0 = plain function), a/b/c = the values, sa/sb/sc = how each
    is written: "p" positional, "k" keyword, "d" left to its default.  The reference cache NORMALISES the spelling
-   to the bound argument tuple Args(s) = <<g, i, a, b, c>> and keys on all of it (or on key_fn's result <<g, i, a, c>>).
-   The body produces a fresh value on every run: <<g, i, a, b, c, n>> where n counts the runs of the body with exactly
+   to the bound argument tuple Args(s) = <<g, i, a, b, c, p, x>> and keys on all of it (or on key_fn's result, which drops b).
+   The body produces a fresh value on every run: Args(s) \o <<n>> where n counts the runs of the body with exactly
    these bound arguments; it raises (carrying the same tuple) when a = 2.  So a hit (old n, no run), a miss (new n,
    one run) and a value that belongs to another call (other function / arguments) are all distinguishable.
    cfg.ret says what the body RETURNS: "tuple" = that tuple; "none" / "zero" / "str" / "empty" = the constant
    None / 0 / "" / () - legitimate results that a cache has to store and serve like any other (hit and miss are then
    told apart by the number of body runs, which is prescribed for every operation).
+
+   cfg.sig is the signature of the cached function: "std" = (a, b=0, *, c=0); "kw" = (a, b=0, *, c=0, **extra);
+   "var" = (a, b=0, *rest, **extra); "varkwo" = (a, b=0, *rest, c=0, **extra).  A spelling then also has p (one extra
+   positional argument with that value, 0 = none; lands in *rest) and x (an extra keyword argument x=value, 0 = none;
+   lands in **extra): they are arguments like any other - calls that differ only in the extras never share a value.
 
    LRU: `lru` is the recency order (least recent first) of the stored keys of all functions, `store` their values;
    the size bound and the eviction are per function (the g-keys of `lru` are g's own recency order).
@@ -39,15 +44,16 @@ VARIABLES cfg, lru, store, cnt, gone, live, now, ltime, armed, hist
 vars == <<cfg, lru, store, cnt, gone, live, now, ltime, armed, hist>>
 
 (* ---------------------------------------------------------------- call alphabets *)
-S(g, i, a, b, c, sa, sb, sc) == [g |-> g, i |-> i, a |-> a, b |-> b, c |-> c, sa |-> sa, sb |-> sb, sc |-> sc]
+SX(g, i, a, b, c, sa, sb, sc, p, x) == [g |-> g, i |-> i, a |-> a, b |-> b, c |-> c, sa |-> sa, sb |-> sb, sc |-> sc, p |-> p, x |-> x]
+S(g, i, a, b, c, sa, sb, sc) == SX(g, i, a, b, c, sa, sb, sc, 0, 0)
 Valid(s) == /\ (s.sb = "p" => s.sa = "p")       \* b can be positional only after a positional a
             /\ (s.sb = "d" => s.b = 0)          \* a default stands for the value 0
             /\ (s.sc = "d" => s.c = 0)          \* c is keyword-only
 Full(G, I) == \* every spelling of every argument tuple over 2 values each (48 per instance) + the raising call
-  {s \in [g : G, i : I, a : {0, 1}, b : {0, 1}, c : {0, 1}, sa : {"p", "k"}, sb : {"p", "k", "d"}, sc : {"k", "d"}] : Valid(s)}
+  {s \in [g : G, i : I, a : {0, 1}, b : {0, 1}, c : {0, 1}, sa : {"p", "k"}, sb : {"p", "k", "d"}, sc : {"k", "d"}, p : {0}, x : {0}] : Valid(s)}
   \cup {S(g, i, 2, 0, 0, sa, "d", "d") : g \in G, i \in I, sa \in {"p", "k"}}
 Mid(G, I) ==
-  {s \in [g : G, i : I, a : {0, 1}, b : {0, 1}, c : {0}, sa : {"p"}, sb : {"p", "k", "d"}, sc : {"d"}] : Valid(s)}
+  {s \in [g : G, i : I, a : {0, 1}, b : {0, 1}, c : {0}, sa : {"p"}, sb : {"p", "k", "d"}, sc : {"d"}, p : {0}, x : {0}] : Valid(s)}
   \cup {S(g, i, a, 0, 1, "p", "d", "k") : g \in G, i \in I, a \in {0, 1}} \cup {S(g, i, 2, 0, 0, "p", "d", "d") : g \in G, i \in I}
 Min(I) == CHOOSE x \in I : \A y \in I : x <= y
 Small(G, I) == \* distinct keys only, for the LRU histories: 4 keys + the raising call (+ one call on a 2nd instance)
@@ -62,18 +68,27 @@ Duo(G, I) == {S(g, i, 0, 0, 0, "p", "p", "d") : g \in G, i \in I} \cup {S(g, i, 
 Keys3(G, I) == \* three distinct keys per function, no raising call: the budget histories of two functions
   {S(g, i, 0, 0, 0, "p", "p", "d") : g \in G, i \in I} \cup {S(g, i, 0, 1, 0, "p", "p", "d") : g \in G, i \in I}
   \cup {S(g, i, 1, 0, 0, "p", "p", "d") : g \in G, i \in I}
+Ext(G, I, sig) == \* calls that differ in the extras (and in b / c next to them), a = 0, for a signature with *rest / **extra
+  {s \in [g : G, i : I, a : {0}, b : {0, 1}, c : {0, 1}, sa : {"p"}, sb : {"p", "d"}, sc : {"k", "d"}, p : 0..2, x : 0..2] :
+     /\ Valid(s) /\ (s.sc = "k" => s.c = 1)
+     /\ (s.p # 0 => s.sb = "p" /\ sig \in {"var", "varkwo"})       \* an extra positional needs a and b positional
+     /\ (sig = "var" => s.c = 0)                                   \* no parameter c in that signature
+     /\ (s.p = 2 => s.x = 0 /\ s.c = 0) /\ (s.x = 2 => s.c = 0 /\ s.p = 0)}   \* (thinning)
 
 Funs(c) == 1..c.nf
 Insts(c) == IF c.deco = "inst" THEN (IF c.nf = 2 THEN {1} ELSE {1, 2})
-            ELSE IF c.form = "meth" THEN (IF c.alpha = "full" \/ c.nf = 2 THEN {1} ELSE {1, 2}) ELSE {0}
+            ELSE IF c.form = "meth" THEN (IF c.alpha \in {"full", "ext"} \/ c.nf = 2 THEN {1} ELSE {1, 2}) ELSE {0}
 Alpha(c) == CASE c.alpha = "full" -> Full(Funs(c), Insts(c)) [] c.alpha = "mid" -> Mid(Funs(c), Insts(c))
               [] c.alpha = "small" -> Small(Funs(c), Insts(c)) [] c.alpha = "tiny" -> Tiny(Funs(c), Insts(c))
-              [] c.alpha = "duo" -> Duo(Funs(c), Insts(c)) [] c.alpha = "keys3" -> Keys3(Funs(c), Insts(c)) [] OTHER -> {}
+              [] c.alpha = "duo" -> Duo(Funs(c), Insts(c)) [] c.alpha = "keys3" -> Keys3(Funs(c), Insts(c))
+              [] c.alpha = "ext" -> Ext(Funs(c), Insts(c), c.sig) [] OTHER -> {}
 
 (* ---------------------------------------------------------------- configurations *)
-CX(deco, form, keyfn, maxsize, body, alpha, pairs, depth, ttl, nf, ret) ==
+CS(deco, form, keyfn, maxsize, body, alpha, pairs, depth, ttl, nf, ret, sig) ==
   [deco |-> deco, form |-> form, keyfn |-> keyfn, maxsize |-> maxsize, body |-> body, alpha |-> alpha,
-   pairs |-> pairs, depth |-> depth, ttl |-> ttl, nf |-> nf, ret |-> ret]
+   pairs |-> pairs, depth |-> depth, ttl |-> ttl, nf |-> nf, ret |-> ret, sig |-> sig]
+CX(deco, form, keyfn, maxsize, body, alpha, pairs, depth, ttl, nf, ret) ==
+  CS(deco, form, keyfn, maxsize, body, alpha, pairs, depth, ttl, nf, ret, "std")
 C(deco, form, keyfn, maxsize, body, alpha, pairs, depth, ttl) ==      \* one function, tuple-valued body
   CX(deco, form, keyfn, maxsize, body, alpha, pairs, depth, ttl, 1, "tuple")
 D(q, t) == IF Deep = 1 THEN t ELSE q
@@ -106,26 +121,29 @@ ConfigsOf(grp) ==
          {CX("lru", f, 0, 2, "plain", "tiny", 0, 3, 0, 1, r) : f \in {"fn", "meth"}, r \in Falsy}
          \cup {CX("inst", "meth", 0, 99, b, "duo", 0, 3, 0, 1, r) : b \in {"plain", "block"}, r \in Falsy}
          \cup {CX("lazy", "fn", 0, 1, "plain", "none", 0, D(4, 5), t, 1, r) : t \in {0, 4}, r \in Falsy}
+    [] grp = "extras" ->     \* signatures with *rest / **extra: calls that differ only in the extras
+         {CS("lru", f, 0, 3, "plain", "ext", 0, 2, 0, 1, "tuple", sg) : f \in {"fn", "meth"}, sg \in {"kw", "var", "varkwo"}}
+         \cup {CS("inst", "meth", 0, 99, "plain", "ext", 0, 2, 0, 1, "tuple", sg) : sg \in {"kw", "var", "varkwo"}}
     [] OTHER -> {}
-AllConfigs == IF Group = "misc"      \* the four small groups in one TLC run (quick tier)
-              THEN ConfigsOf("lazy") \cup ConfigsOf("overlap") \cup ConfigsOf("shared") \cup ConfigsOf("falsy")
+AllConfigs == IF Group = "misc"      \* the five small groups in one TLC run (quick tier)
+              THEN ConfigsOf("lazy") \cup ConfigsOf("overlap") \cup ConfigsOf("shared") \cup ConfigsOf("falsy") \cup ConfigsOf("extras")
               ELSE ConfigsOf(Group)
 Configs == {c \in AllConfigs : /\ (OnlyForm = "all" \/ c.form = OnlyForm)
                                /\ (OnlyKeyfn = "all" \/ ToString(c.keyfn) = OnlyKeyfn)}
 
 (* ---------------------------------------------------------------- the reference cache *)
-Args(s) == <<s.g, s.i, s.a, s.b, s.c>>
-Key(s) == IF cfg.keyfn = 1 THEN <<s.g, s.i, s.a, s.c>> ELSE Args(s)       \* key_fn ignores b
-KeyOfVal(v) == IF cfg.keyfn = 1 THEN <<v[1], v[2], v[3], v[5]>> ELSE <<v[1], v[2], v[3], v[4], v[5]>>
+Args(s) == <<s.g, s.i, s.a, s.b, s.c, s.p, s.x>>
+Key(s) == IF cfg.keyfn = 1 THEN <<s.g, s.i, s.a, s.c, s.p, s.x>> ELSE Args(s)       \* key_fn ignores b
+KeyOfVal(v) == IF cfg.keyfn = 1 THEN <<v[1], v[2], v[3], v[5], v[6], v[7]>> ELSE SubSeq(v, 1, 7)
 Raises(s) == s.a = 2
-AllArgs == {<<g, i, a, b, c>> : g \in 1..2, i \in 0..2, a \in 0..2, b \in 0..1, c \in 0..1}
-Amb == <<0, 0, 0, 0, 0, 0>>       \* "some value is stored, the property does not say which" (n = 0)
+Amb == <<0, 0, 0, 0, 0, 0, 0, 0>>       \* "some value is stored, the property does not say which" (n = 0)
+Cnt(c, args) == IF args \in DOMAIN c THEN c[args] ELSE 0          \* body runs so far with these bound arguments
 MaxSize == IF cfg.deco = "lru" THEN cfg.maxsize ELSE 99
 Range(f) == {f[x] : x \in DOMAIN f}
 Touch(l, k) == Append(SelectSeq(l, LAMBDA x : x # k), k)
 OfFun(l, g) == SelectSeq(l, LAMBDA x : x[1] = g)                     \* g's own recency order
 Shown(v) == IF cfg.ret = "tuple" THEN <<"val">> \o v ELSE <<"val", cfg.ret>>   \* what the caller sees of value v
-ResOf(v) == IF v[6] = 0 THEN <<"any">> ELSE Shown(v)
+ResOf(v) == IF v[8] = 0 THEN <<"any">> ELSE Shown(v)
 MissTag(k) == IF k \in DOMAIN gone THEN gone[k] ELSE "new"
 Put(f, k, v) == [x \in DOMAIN f \cup {k} |-> IF x = k THEN v ELSE f[x]]
 Without(f, ks) == [x \in DOMAIN f \ ks |-> f[x]]
@@ -143,7 +161,7 @@ Usable(s) == s \in Alpha(cfg) /\ (s.i = 0 \/ s.i \in live)
 
 Init == /\ cfg \in Configs
         /\ lru = <<>> /\ store = [x \in {} |-> Amb] /\ gone = [x \in {} |-> "new"]
-        /\ cnt = [x \in AllArgs |-> 0]
+        /\ cnt = [x \in {} |-> 0]
         /\ live = {1, 2} /\ now = 1000 /\ ltime = [g \in 1..2 |-> 0] /\ armed = FALSE /\ hist = <<>>
 
 (* one call: lookup on the normalised key; hit => stored value, recency refreshed, body not run;
@@ -154,9 +172,9 @@ Call(s) ==
      IF k \in DOMAIN store
      THEN /\ lru' = Touch(lru, k) /\ UNCHANGED <<store, cnt, gone>>
           /\ hist' = Append(hist, Rec("call", 0, <<s>>, <<ResOf(store[k])>>, 0, <<"hit">>))
-     ELSE LET n == cnt[Args(s)] + 1
+     ELSE LET n == Cnt(cnt, Args(s)) + 1
               v == Args(s) \o <<n>> IN
-          /\ cnt' = [cnt EXCEPT ![Args(s)] = n]
+          /\ cnt' = Put(cnt, Args(s), n)
           /\ IF Raises(s)
              THEN /\ UNCHANGED <<lru, store, gone>>
                   /\ hist' = Append(hist, Rec("call", 0, <<s>>, <<(<<"err">> \o v)>>, 1, <<"raise">>))
@@ -166,16 +184,20 @@ Call(s) ==
 
 (* two calls yielded together, bodies blocking on one batch: both lookups happen before either body finishes.
    Prescribed only while no eviction is involved (the completion order of the two bodies is not the property's
-   business).  Same key and both miss: both bodies run, which value each call gets and which one stays stored
-   is left open ("any", Amb). *)
+   business).  Same key and both miss: nothing is stored when either call looks, so BOTH are misses: both bodies run
+   and each call returns the fresh result of ITS OWN body run ("the body's fresh result on a miss").  When the two
+   calls have different bound arguments (key_fn ignores b) that is an exact value each; when the bound arguments are
+   identical the two runs are numbered n+1 and n+2 in an order the property does not fix, so the prescription is
+   <<"fresh", kind, args.., n+1, n+2>>: a value of that run range, and the two calls of the pair must not return the
+   same run's value.  Only WHICH of the two values stays stored is left open (Amb). *)
 Pair(s1, s2) ==
   /\ cfg.deco # "lazy" /\ cfg.pairs = 1 /\ Len(hist) < cfg.depth /\ Usable(s1) /\ Usable(s2)
   /\ LET k1 == Key(s1)
          k2 == Key(s2)
          h1 == k1 \in DOMAIN store
          h2 == k2 \in DOMAIN store
-         n1 == cnt[Args(s1)] + 1
-         n2 == IF Args(s1) = Args(s2) /\ ~h1 THEN n1 + 1 ELSE cnt[Args(s2)] + 1
+         n1 == Cnt(cnt, Args(s1)) + 1
+         n2 == IF Args(s1) = Args(s2) /\ ~h1 THEN n1 + 1 ELSE Cnt(cnt, Args(s2)) + 1
          v1 == Args(s1) \o <<n1>>
          v2 == Args(s2) \o <<n2>>
          r1 == IF h1 THEN ResOf(store[k1]) ELSE IF Raises(s1) THEN <<"err">> \o v1 ELSE Shown(v1)
@@ -190,11 +212,12 @@ Pair(s1, s2) ==
          ld == IF put2 THEN Touch(lc, k2) ELSE lc
      IN
      /\ \A g \in 1..2 : Len(OfFun(ld, g)) <= MaxSize
-     /\ cnt' = [x \in AllArgs |-> IF x = Args(s2) /\ ~h2 THEN n2 ELSE IF x = Args(s1) /\ ~h1 THEN n1 ELSE cnt[x]]
+     /\ cnt' = LET c1 == IF h1 THEN cnt ELSE Put(cnt, Args(s1), n1) IN IF h2 THEN c1 ELSE Put(c1, Args(s2), n2)
      /\ lru' = ld /\ UNCHANGED gone
      /\ IF k1 = k2 /\ ~h1
-        THEN /\ store' = IF put1 THEN Put(store, k1, Amb) ELSE store
-             /\ hist' = Append(hist, Rec("pair", 0, <<s1, s2>>, <<(<<"any">>), (<<"any">>)>>, 0 - 1, <<t1, t2>>))
+        THEN LET f == <<"fresh", IF Raises(s1) THEN "err" ELSE "val">> \o Args(s1) \o <<n1, n1 + 1>> IN
+             /\ store' = IF put1 THEN Put(store, k1, Amb) ELSE store
+             /\ hist' = Append(hist, Rec("pair", 0, <<s1, s2>>, IF Args(s1) = Args(s2) THEN <<f, f>> ELSE <<r1, r2>>, 2, <<t1, t2>>))
         ELSE /\ store' = LET sa == IF put1 THEN Put(store, k1, v1) ELSE store IN IF put2 THEN Put(sa, k2, v2) ELSE sa
              /\ hist' = Append(hist, Rec("pair", 0, <<s1, s2>>, <<r1, r2>>,
                                          (IF h1 THEN 0 ELSE 1) + (IF h2 THEN 0 ELSE 1), <<t1, t2>>))
@@ -217,16 +240,16 @@ New == /\ cfg.deco = "inst" /\ cfg.nf = 1 /\ Len(hist) < cfg.depth /\ 2 \notin l
 
 (* alazy_constant: constant number g *)
 LZ(g) == <<g>>
-LArgs(g) == <<g, 0, 0, 0, 0>>
+LArgs(g) == <<g, 0, 0, 0, 0, 0, 0>>
 LValid(g) == ltime[g] # 0 /\ (cfg.ttl = 0 \/ now - ltime[g] < cfg.ttl)
 LCall(g) == /\ cfg.deco = "lazy" /\ Len(hist) < cfg.depth
             /\ IF LValid(g)
                THEN /\ UNCHANGED <<store, cnt, ltime, armed, gone>>
                     /\ hist' = Append(hist, Rec("lcall", g, <<>>, <<ResOf(store[LZ(g)])>>, 0, <<"hit">>))
-               ELSE LET n == cnt[LArgs(g)] + 1
+               ELSE LET n == Cnt(cnt, LArgs(g)) + 1
                         v == LArgs(g) \o <<n>>
                         why == IF ltime[g] # 0 THEN "expired" ELSE MissTag(LZ(g)) IN
-                    /\ cnt' = [cnt EXCEPT ![LArgs(g)] = n]
+                    /\ cnt' = Put(cnt, LArgs(g), n)
                     /\ IF armed
                        THEN /\ armed' = FALSE /\ UNCHANGED <<store, ltime, gone>>     \* a raise is not cached
                             /\ hist' = Append(hist, Rec("lcall", g, <<>>, <<(<<"err">> \o v)>>, 1, <<"raise">>))
@@ -262,16 +285,17 @@ NeverShare ==       \* a stored value was computed by the key's function from ar
 ReturnedOwn ==      \* every returned value was computed by the called function from arguments equal to the call's on every key parameter
   cfg.ret = "tuple" => \A j \in 1..Len(hist) : hist[j].op \in {"call", "pair"} =>
      \A q \in 1..Len(hist[j].calls) : hist[j].res[q][1] = "val" =>
-        KeyOfVal(SubSeq(hist[j].res[q], 2, 7)) = Key(hist[j].calls[q])
+        KeyOfVal(SubSeq(hist[j].res[q], 2, 9)) = Key(hist[j].calls[q])
 RaiseNotCached == \A k \in DOMAIN store : cfg.deco # "lazy" => k[3] # 2
 InstanceGone == cfg.deco = "inst" => \A k \in DOMAIN store : k[2] \in live
 NoTtlBoundary == cfg.deco = "lazy" /\ cfg.ttl # 0 => \A g \in 1..2 : ltime[g] # 0 => now - ltime[g] # cfg.ttl
 HitRunsNothing ==   \* a hit runs no body; a miss runs it exactly once (single calls), whatever the stored value is
   [][Len(hist') > Len(hist) /\ hist'[Len(hist')].op \in {"call", "lcall"} =>
        LET r == hist'[Len(hist')]
-           ran == \E x \in AllArgs : cnt'[x] # cnt[x] IN
+           changed == {x \in DOMAIN cnt' : Cnt(cnt', x) # Cnt(cnt, x)}
+           ran == changed # {} IN
        /\ (r.tag[1] = "hit" <=> ~ran) /\ (r.tag[1] = "hit" <=> r.runs = 0)
-       /\ (r.tag[1] # "hit" => r.runs = 1 /\ Cardinality({x \in AllArgs : cnt'[x] # cnt[x]}) = 1)]_vars
+       /\ (r.tag[1] # "hit" => r.runs = 1 /\ Cardinality(changed) = 1)]_vars
 OneRecomputation == \* lazy constant: two calls of one constant in a row -> the second is a hit unless the first raised
   cfg.deco = "lazy" => \A j \in 1..(Len(hist) - 1) :
      hist[j].op = "lcall" /\ hist[j].tag[1] # "raise" /\ hist[j + 1].op = "lcall" /\ hist[j + 1].arg = hist[j].arg
